@@ -1154,6 +1154,7 @@ pub fn run_case(n: u64, case: &CaseInput, children: usize, tmp_dir: &std::path::
     }
     for t in &case.tags {
         out.line(format!("tag {t}"));
+        out.count(&format!("gen_{}", t.replace('-', "_")));
     }
     out.count(&format!("files_{}", case.files.len().min(3)));
     if case.with_paths {
